@@ -31,12 +31,18 @@ TOL = 1e-9
 CONV_TOL = 1e-4     # max-norm distance to the minimiser, relative to 1 + |x*|
 
 
-def budget(opt, ls, cond):
-    """step budget for reaching the minimiser of a strictly convex quadratic (condition <= 1e4, n <= 6).  Observed on the
-    unchanged tree over 160 problems x 9 configurations (accuracy 1e-6): Dlinmin <= 40, WolfeCubic <= 60, BFGS/L-BFGS with
-    backtracking <= 40 steps; CG with backtracking degenerates to restarted steepest descent: <= 31 * cond steps."""
-    if opt == "CG" and ls == 2:
+def budget(opt, ls, cond, hist=100, n=1):
+    """step budget for reaching the minimiser of a strictly convex quadratic (condition <= 1e4, n <= 6) to CONV_TOL.
+    Observed on the unchanged tree (probes over 150-160 problems per configuration, accuracy 1e-6 resp. 1e-4):
+    Dlinmin <= 40, WolfeCubic <= 60, BFGS / L-BFGS (history >= n) with backtracking <= 40 steps;
+    L-BFGS with a history shorter than n: Dlinmin <= 20, WolfeCubic <= 620 at cond 1e4 (~0.06 cond);
+    CG with backtracking and short-history L-BFGS with backtracking behave like restarted steepest descent:
+    <= 31 * cond resp. > 0.4 * cond steps."""
+    short = opt == "LBFGS" and hist < n
+    if (opt == "CG" or short) and ls == 2:
         return int(100 * cond) + 200
+    if short:
+        return 200 + int(cond / 5)
     return 200
 
 
@@ -148,7 +154,7 @@ def gen_float(rng, big=False):
     conv = False; lower = upper = (); cond = 1.0
     if kind.endswith("quad"):
         n = rng.randint(1, 6); cond = rng.choice([1, 10, 100, 1e3] + ([1e4] if big else [])) if n > 1 else 1
-        if opt == "CG" and ls == 2 and not big: cond = min(cond, 100)
+        if opt in ("CG", "LBFGS") and ls == 2 and not big: cond = min(cond, 100)
         A = spd(rng, n, cond); b = [rng.gauss(0, 3) for _ in range(n)]; x0 = [rng.uniform(-3, 3) for _ in range(n)]
         Af = [v for r in A for v in r]; lmax = float(cond)
     else:
@@ -171,7 +177,7 @@ def gen_float(rng, big=False):
     if rng.random() < 0.3: ops += ["W", "R %d" % rng.randint(2, 20)]
     if kind == "quad" and opt in LIB_LS and rng.random() < (0.7 if not (opt == "CG" and ls == 2) else 0.4):
         done = sum(1 if o == "S" else int(o.split()[1]) if o.startswith("R") else 0 for o in ops)
-        ops.append("R %d" % max(1, budget(opt, ls, 1.1 * cond) - done))
+        ops.append("R %d" % max(1, budget(opt, ls, 1.1 * cond, params[0] if opt == "LBFGS" else 100, n) - done))
     return [hd] + ops
 
 
@@ -267,11 +273,13 @@ def monitor(case, out):
     if not bad and kind == "quad" and opt in LIB_LS and len(out) == len(case) and out:
         A = [h["A"][i * n:(i + 1) * n] for i in range(n)]
         cond = cond_of(case[0], A)
-        if total >= budget(opt, ls, cond):
+        hist = h["params"][0] if opt == "LBFGS" and h["params"] else 100
+        bud = budget(opt, ls, cond, hist, n)
+        if total >= bud:
             xs = solve(A, h["b"]); pt = fvec(kv(out[-1])["pt"])
             err = max(abs(a - b) for a, b in zip(pt, xs)); ref = 1 + max(abs(x) for x in xs)
             if not (err <= CONV_TOL * ref):
-                bad.append(("monitor:converge:%s" % shape, "%s n=%d cond=%g: after %d steps (budget %d) |x - x*|_inf = %.3g > %g * (1 + |x*|_inf)" % (shape, n, cond, total, budget(opt, ls, cond), err, CONV_TOL)))
+                bad.append(("monitor:converge:%s" % shape, "%s n=%d cond=%g: after %d steps (budget %d) |x - x*|_inf = %.3g > %g * (1 + |x*|_inf)" % (shape, n, cond, total, bud, err, CONV_TOL)))
     return bad
 
 _COND = {}
@@ -310,7 +318,11 @@ def compare(case, mo, io, stats):
         if b.startswith("EXC"): return "line %d: implementation threw, model has a state" % idx
         da, db = kv(a), kv(b)
         exact = db.get("ex") == "1"
+        # inexact regime at / next to the minimiser: only the continuous quantities are determined by the exact model
+        # (the direction rules branch on gg == 0 and on a divisor threshold)
+        degenerate = (not exact) and "der" in da and max(abs(float(qfrac(t))) for t in da["der"].split(",")) ** 2 <= 1e-9 * max(1.0, abs(float(qfrac(da["val"]))))
         for k, va in da.items():
+            if degenerate and k not in ("pt", "val", "der"): continue
             if not stepped and k in ("lpt", "lder", "lval"): continue      # left uninitialised by init()
             if k not in db: return "line %d: implementation prints no %s" % (idx, k)
             if k == "cnt":
@@ -329,6 +341,11 @@ def compare(case, mo, io, stats):
                     if not abs(float(p) - q) <= TOL * sc:
                         return "line %d `%s`: %s model %r, implementation %r (tolerance %g * %g)" % (idx, l[:20], k, float(p), q, TOL, sc)
         stats["exact" if exact else "tol"] += 1
+        if degenerate:
+            # the decrease tested by the Armijo condition (~ |gradient|^2) is within reach of the rounding noise of the
+            # objective (~1e-16 |value|): the accepted step length is no longer determined by the exact model
+            stats["stopped_near_minimiser"] = stats.get("stopped_near_minimiser", 0) + 1
+            return None
         if "der" in da and all(qfrac(t) == 0 for t in da["der"].split(",")):
             # the model sits on the exact minimiser (zero gradient): from here on the Armijo test of the C++ compares
             # values that differ by rounding noise only, so its branches are no longer determined by the exact model
@@ -358,7 +375,7 @@ def main():
         "box-constrained objectives only with the optimizers that announce CAN_SOLVE_CONSTRAINED (LBFGS, Rprop); the others reject them in checkFeatures",
         "SteepestDescent learning rate <= 0.9/lambda_max (otherwise plain gradient descent diverges by design); Adam eta <= 0.1",
         "fresh instance of save/restore = default-constructed object of the same class, init-ed on the same objective at another point and stepped twice (LineSearch keeps a pointer to the objective that cannot be archived)",
-        "minimiser reached = max-norm error <= 1e-4 (1 + |x*|) within budget(): 200 steps, CG with backtracking 100*cond+200 (it degenerates to restarted steepest descent)",
+        "minimiser reached = max-norm error <= 1e-4 (1 + |x*|) within budget(): 200 steps; L-BFGS with history < n: 200 + cond/5; CG or short-history L-BFGS with the backtracking line search: 100*cond+200 (they degenerate to restarted steepest descent)",
         "box feasibility with the 1e-13 slack of BoxConstraintHandler::isFeasible is modelled in exact rationals (x + eps < l); the C++ rounds x + eps",
         "TrustRegionNewton is abstract in this tree (cannot be instantiated): outside the check; an obligation watches that it stays so"]
     ck.proofs()
@@ -442,7 +459,7 @@ def main():
     ck.oblige("spec monitors (value = objective, finite, feasible, monotone line search, minimiser within budget, save/restore) on %d optimizer histories" % len(cases),
               n_unknown == 0, "" if n_unknown == 0 else "%d cases fail under keys %s" % (n_unknown, sorted(k for k in mon if ck.match_known(k) is None)[:6]))
 
-    if dis and n_unknown == 0:
+    if dis:
         # broken correspondence without failing input: search around the disagreeing cases (same objective, other histories / optimizers)
         extra = []
         for ci, _ in dis[:6]:
@@ -450,7 +467,8 @@ def main():
             for _ in range(40):
                 g = gen_exact(rng); t = hd.split(" ", 4)
                 for o2 in (["CG", "BFGS", "LBFGS", "SDLS"] if "box" not in hd else [t[1]]):
-                    extra.append([" ".join([t[0], o2] + t[2:])] + g[1:] + ["R 30"])
+                    ops = g[1:] if o2 != "CG" else g[1:4]      # the model's rationals square in size with every CG beta
+                    extra.append([" ".join([t[0], o2] + t[2:])] + ops + ["R 30"])
         emo, eio = run_both(extra, "search")
         found = False
         for c, m_, i_ in zip(extra, emo, eio):
@@ -485,6 +503,7 @@ def main():
     ck.cov["optimizer_steps"] = steps
     ck.cov["state_lines_compared_exactly"] = stats["exact"]; ck.cov["state_lines_compared_1e-9"] = stats["tol"]
     ck.cov["comparisons_stopped_at_exact_minimiser"] = stats.get("stopped_at_minimiser", 0)
+    ck.cov["comparisons_stopped_near_minimiser_inexact_regime"] = stats.get("stopped_near_minimiser", 0)
     ck.cov["classes"] = cls
     ck.cov["save_restore_points"] = sum(1 for c in cases for l in c if l == "W")
     ck.cov["convergence_runs"] = sum(1 for c in cases if c[0].split()[3] == "quad" and c[0].split()[1] in LIB_LS and "x" in c[0] and sum(steps_of(l) for l in c[1:]) >= 200)
